@@ -112,6 +112,7 @@ namespace verif {
         ctr_t hits[pv::site_count] = {};
         ctr_t sub[pv::site_count][4] = {};    // indexed by (b & 3): path variants
         ctr_t steals{0}, staged_steals{0}, delays{0};
+        ctr_t stored_state[8] = {};    // state stored by the scheduling loop after a phase (sched_after_store)
     };
     inline std::mutex g_tc_mtx;
     inline std::vector<thread_counters*> g_tcs;
@@ -215,6 +216,7 @@ namespace verif {
         bump(c.sub[site][b & 3]);
         if (site == pv::sched_steal || (site == pv::tq_get_next && a == 1)) bump(c.steals);
         if (site == pv::tq_add_new && a == 1) bump(c.staged_steals);
+        if (site == pv::sched_after_store) bump(c.stored_state[b & 7]);
         if (g_sr_enabled.load(std::memory_order_relaxed) &&
             (site == pv::sched_before_run || site == pv::sched_after_run))
             single_runner(site, obj);
@@ -249,6 +251,7 @@ namespace verif {
         std::uint64_t hits[pv::site_count] = {};
         std::uint64_t sub[pv::site_count][4] = {};
         std::uint64_t steals = 0, staged_steals = 0, delays = 0;
+        std::uint64_t stored_state[8] = {};
     };
     inline counter_totals totals()
     {
@@ -261,6 +264,7 @@ namespace verif {
                 t.hits[s] += p->hits[s];
                 for (int k = 0; k < 4; ++k) t.sub[s][k] += p->sub[s][k];
             }
+            for (int k = 0; k < 8; ++k) t.stored_state[k] += p->stored_state[k];
             t.steals += p->steals;
             t.staged_steals += p->staged_steals;
             t.delays += p->delays;
@@ -497,6 +501,12 @@ namespace verif {
     };
 
     // ---------------------------------------------------------------- quiescence watchdog
+    // Wake-up sources outside the runtime (plain OS threads that will still call into pika) must be counted as
+    // activity: an OS thread can be descheduled for longer than the watchdog's observation window.
+    inline std::atomic<std::int64_t> g_external_busy{0};
+    inline void external_begin() { g_external_busy.fetch_add(1); }
+    inline void external_end() { g_external_busy.fetch_sub(1); }
+
     enum class wait_result
     {
         done,
@@ -524,6 +534,7 @@ namespace verif {
                 busy += pool.get_thread_count_active(std::size_t(-1), false);
                 busy += pool.get_thread_count_staged(std::size_t(-1), false);
             }
+            busy += g_external_busy.load();
             bool delaying = g_perturb.in_delay.load() != 0;
             if (busy == 0 && !delaying)
             {
